@@ -300,6 +300,21 @@ theorem C12_snr (v : UInt8) : F.eq (snrOf v) (.fin ((int8 v : Rat) / 4)) = true 
 /-- **C12, FSK RSSI decode.** `-RssiValue / 2` dBm, truncated toward zero, for all 256 values. -/
 theorem C12_fsk_rssi : ∀ v : UInt8, fskRssiOf v = -((v.toNat / 2 : Nat) : Int) := fun _ => rfl
 
+/-- **C12, packet strength (LoRa).** For every RegPktRssiValue, every RegPktSnrValue and either
+    port offset: the refined value `sx127x_rx_get_packet_rssi` computes for a negative SNR is the
+    datasheet's `-offset + PacketRssi + PacketSnr * 0.25`, truncated toward zero — the single
+    precision sum is exact. -/
+theorem C12_packet_rssi (value snr : UInt8) (off : Int) (hoff : off = Gen.RSSI_OFFSET_HF_PORT ∨ off = Gen.RSSI_OFFSET_LF_PORT) :
+    rssiRefine ((value.toNat : Int) - off) (snrOf snr) =
+      some (F.truncQ ((((value.toNat : Int) - off : Int) : Rat) + (int8 snr : Rat) / 4)) := by
+  rw [F.eq_fin (C12_snr snr)]
+  have hv : value.toNat < 256 := value.toNat_lt
+  have hs : snr.toNat < 256 := snr.toNat_lt
+  have hk : -128 ≤ int8 snr ∧ int8 snr ≤ 127 := by unfold int8; split <;> omega
+  have ho : off = 157 ∨ off = 164 := by
+    rcases hoff with e | e <;> rw [e] <;> decide
+  exact rssiRefine_exact _ (by rcases ho with e | e <;> omega) (by rcases ho with e | e <;> omega) _ hk.1 hk.2
+
 /-- the 16-bit two's-complement reading of the AFC registers -/
 def s16 (n : Nat) : Int := if 32768 ≤ n then (n : Int) - 65536 else n
 
@@ -373,6 +388,93 @@ theorem C12_fsk_frequency_error (raw : UInt32) (h : raw.toNat < 65536) :
       rw [abs_lt]
       constructor <;> nlinarith [a.1, a.2, hfl1, hfl2]
 
+
+/-- **C12, frequency error (LoRa).** For every 20-bit content of RegFei and each of the ten LoRa
+    bandwidths, the value `sx127x_rx_get_frequency_error` returns is within 9/8 Hz of the
+    datasheet formula `FreqError * 2^24 / Fxosc * BW / 500 kHz` (two's complement): four single
+    precision roundings of a value below 2.8·10^5, the inexact constant, one truncation. -/
+theorem C12_lora_frequency_error (raw : UInt32) (h : raw.toNat < 1048576) (bw : Nat) (hbw : LoraBw bw) :
+    ∃ v : Int, loraFreqError raw bw = some v ∧
+      |(v : Rat) - (s20 raw.toNat : Rat) * (16777216 / 32000000) * (bw : Rat) / 500000| < 9 / 8 := by
+  have hbw24 : 0 < bw ∧ bw < 2 ^ 24 := by
+    rcases hbw with e | e | e | e | e | e | e | e | e | e <;> subst e <;> norm_num
+  unfold loraFreqError
+  simp only
+  rw [factor_value, f32_500000, ofNat32_exact bw hbw24.1 hbw24.2]
+  by_cases hneg : 524288 ≤ raw.toNat
+  · have hb := (bit19 raw h).mpr hneg
+    simp only [if_pos hb, ofInt_neg_one]
+    have hmag := neg20 raw h hneg
+    have hm0 : 0 < 1048576 - raw.toNat := by omega
+    have hm1 : 1048576 - raw.toNat ≤ 524288 := by omega
+    obtain ⟨P1, P2, P3, P4, r1, r2, r3, _, r5, p4a, p4b, herr⟩ := lora_chain_err (1048576 - raw.toNat) hm0 hm1 bw hbw
+    rw [hmag, ofNat32_exact _ hm0 (by omega)]
+    show ∃ v, F.toSInt 32 (F.mul b32 (F.fin (-1)) (F.div b32 (F.mul b32 (F.round b32 (((1048576 - raw.toNat : Nat) : Rat) * (8796093 / 16777216))) (F.fin (bw : Rat))) (F.fin 500000))) = some v ∧ _
+    rw [r1]
+    show ∃ v, F.toSInt 32 (F.mul b32 (F.fin (-1)) (F.div b32 (F.round b32 (P1 * (bw : Rat))) (F.fin 500000))) = some v ∧ _
+    rw [r2]
+    have hdiv : F.div b32 (F.fin P2) (F.fin 500000) = F.round b32 (P2 / 500000) := by
+      simp [F.div]
+    rw [hdiv, r3]
+    show ∃ v, F.toSInt 32 (F.round b32 (-1 * P3)) = some v ∧ _
+    rw [r5, toSInt_neg' P4 p4a p4b]
+    refine ⟨-P4.floor, rfl, ?_⟩
+    have hs : (s20 raw.toNat : Rat) = -((1048576 - raw.toNat : Nat) : Rat) := by
+      unfold s20; rw [if_pos hneg]; push_cast [Nat.cast_sub (by omega : raw.toNat ≤ 1048576)]; ring
+    rw [hs]
+    have hfl1 := Rat.floor_le P4
+    have hfl2 := Rat.lt_floor_add_one P4
+    push_cast at hfl2
+    have a := abs_le.mp herr
+    rw [abs_lt]
+    push_cast
+    constructor <;> nlinarith [a.1, a.2, hfl1, hfl2]
+  · have hb : ¬(raw &&& 0x80000 ≠ 0) := fun hc => hneg ((bit19 raw h).mp hc)
+    simp only [if_neg hb, ofInt_one]
+    have hs : (s20 raw.toNat : Rat) = (raw.toNat : Rat) := by unfold s20; rw [if_neg hneg]; push_cast; rfl
+    rw [hs]
+    by_cases hz : raw.toNat = 0
+    · have h0 : F.ofNat b32 raw.toNat = .fin 0 := by rw [hz]; unfold F.ofNat; simpa using round_zero
+      rw [h0]
+      refine ⟨0, ?_, by rw [hz]; norm_num⟩
+      show F.toSInt 32 (F.mul b32 (F.fin 1) (F.div b32 (F.mul b32 (F.round b32 (0 * (8796093 / 16777216))) (F.fin (bw : Rat))) (F.fin 500000))) = some 0
+      rw [zero_mul, round_zero]
+      show F.toSInt 32 (F.mul b32 (F.fin 1) (F.div b32 (F.round b32 (0 * (bw : Rat))) (F.fin 500000))) = some 0
+      rw [zero_mul, round_zero]
+      have hdiv : F.div b32 (F.fin 0) (F.fin 500000) = F.round b32 (0 / 500000) := by
+        simp [F.div]
+      rw [hdiv, zero_div, round_zero]
+      show F.toSInt 32 (F.round b32 (1 * 0)) = some 0
+      rw [mul_zero, round_zero]
+      unfold F.toSInt F.truncQ
+      have hf : Rat.floor 0 = 0 := by rw [rfloor_eq]; exact Int.floor_zero
+      simp [hf]
+    · have hm0 : 0 < raw.toNat := Nat.pos_of_ne_zero hz
+      obtain ⟨P1, P2, P3, P4, r1, r2, r3, r4, _, p4a, p4b, herr⟩ := lora_chain_err raw.toNat hm0 (by omega) bw hbw
+      rw [ofNat32_exact _ hm0 (by omega)]
+      show ∃ v, F.toSInt 32 (F.mul b32 (F.fin 1) (F.div b32 (F.mul b32 (F.round b32 ((raw.toNat : Rat) * (8796093 / 16777216))) (F.fin (bw : Rat))) (F.fin 500000))) = some v ∧ _
+      rw [r1]
+      show ∃ v, F.toSInt 32 (F.mul b32 (F.fin 1) (F.div b32 (F.round b32 (P1 * (bw : Rat))) (F.fin 500000))) = some v ∧ _
+      rw [r2]
+      have hdiv : F.div b32 (F.fin P2) (F.fin 500000) = F.round b32 (P2 / 500000) := by
+        simp [F.div]
+      rw [hdiv, r3]
+      show ∃ v, F.toSInt 32 (F.round b32 (1 * P3)) = some v ∧ _
+      rw [r4, toSInt_pos' P4 p4a p4b]
+      refine ⟨P4.floor, rfl, ?_⟩
+      have hfl1 := Rat.floor_le P4
+      have hfl2 := Rat.lt_floor_add_one P4
+      push_cast at hfl2
+      have a := abs_le.mp herr
+      rw [abs_lt]
+      constructor <;> nlinarith [a.1, a.2, hfl1, hfl2]
+
+/-- **C12, LoRa bandwidth decode.** The ten bandwidth codes of RegModemConfig1 decode to the
+    datasheet's bandwidths in Hz; the six reserved codes are refused. -/
+theorem C12_lora_bandwidth_decode :
+    (List.range 16).map (fun c => bandwidthOfCode (UInt8.ofNat c)) =
+      [some 7800, some 10400, some 15600, some 20800, some 31250, some 41700, some 62500, some 125000,
+       some 250000, some 500000, none, none, none, none, none, none] := by decide
 
 /-- the single-side receiver bandwidths of the datasheet (FSK column of the RxBw table, Hz) with
     their register code `RxBwMant << 3 | RxBwExp` -/
